@@ -862,4 +862,28 @@ theorem legacy_round_limit_violates {W : World ω} (C : Cfg) (hfix : C.fixRoundR
 example : WriteProgress idleEngine := by
   intro s d; exact .ret ⟨1, rfl, by decide⟩
 
+/-! ## "the handshake ... completes for every combination of sync/async endpoints, timeout modes and order of calls"
+
+NOT PROVED as a single liveness theorem.  The intended statement (DESIGN §5 C18, kept here verbatim in intent):
+
+  theorem handshake_completes (with the reference engine `HsEngine`: flights C→S, S→C, C→S, then application
+  data, each flight a byte string that may arrive in any segmentation):
+    for every pairing of {sync, async} endpoints, every timeout mode on each side, every order of the two sides'
+    first calls and every segmentation of the flights on the wire, after finitely many calls / driver steps both
+    engines are `init_finished` (measure: undelivered handshake bytes + flights remaining), after which
+    tlsRead/tlsWrite refine receive/send.
+
+What this file does carry towards it, for EVERY engine (not only a reference engine):
+* `pollout_protocol`, `pollout_restored`, `driverQuery_protocol` - the driver keeps polling for what the handshake
+  needs and queued data cannot be stranded behind it (the async half of the argument);
+* `receive_leaves_no_stale_want_read`, `send_leaves_no_stale_want_write` - a call that finds nothing to do never
+  poisons the next call in the other direction (the two ways the polling call orders used to deadlock, F7/F10);
+* `tlsWrite_complete` - a Send is not cut short by the round limit (F9);
+* `tlsWrite_retry_same_data` - retries are well-formed, so the engine can always continue where it stopped.
+The composition of two endpoints over a channel with `HsEngine` (the expected fallback
+`handshake_completes_partial`: both endpoints synchronous, unlimited or zero timeout) was not reached.  Completion of
+the handshake for all pairings / timeout modes / call orders / segmentations is therefore established only by the
+implementation matrix of `./check C18` (enumerated completely in the thorough tier: every case must end with both
+sides `init_finished` and both payloads delivered), against real OpenSSL. -/
+
 end SockModel.Tls
